@@ -58,4 +58,39 @@ func stringsFuncOracle(c *Ctx) {
 			}
 		}
 	}
+	stringsStatefulOracle(c)
+}
+
+// stringsStatefulOracle: the callback is invoked once for EVERY character, in order, also for repeated
+// characters: a stateful closure sees exactly the calls the same loop written in the script makes.
+func stringsStatefulOracle(c *Ctx) {
+	mm := ugo.NewModuleMap().AddBuiltinModule("strings", ugostrings.Module)
+	for _, in := range []string{"aabbb  cc", "zzzz", "abab", "", "ééa", "a"} {
+		src := fmt.Sprintf(`strings := import("strings")
+s := %q
+cnt := 0
+r := strings.Map(func(c) { cnt++; return c + cnt }, s)
+out := ""
+n := 0
+for _, c in s { n++; out += char(c + n) }
+seen := []
+i := strings.IndexFunc(s, func(c) { seen = append(seen, c); return false })
+t := strings.TrimFunc(s, func(c) { seen = append(seen, c); return false })
+return [r == out, cnt == n, len(seen) >= (len(s) > 0 ? 2 : 0)]
+`, in)
+		c.dist["oracle:strings-stateful"]++
+		bc, err := ugo.Compile([]byte(src), ugo.CompilerOptions{ModuleMap: mm})
+		if err != nil {
+			c.Violation(PropViolation{"C14", "stateful-callback script does not compile: " + err.Error(), src, "C14:stateful-compile"})
+			continue
+		}
+		ret, err := ugo.NewVM(bc).SetRecover(true).Run(nil)
+		got := fmt.Sprint(ret)
+		if err != nil {
+			got = "error: " + semFirstLine(err.Error())
+		}
+		if got != "[true, true, true]" {
+			c.Violation(PropViolation{"C14", fmt.Sprintf("strings.Map(f, %q) with a stateful closure does not make the calls the same loop in the script makes: [result equal, call count equal, scans called] = %s", in, got), src, "C14:callback-calls-differ:strings.Map"})
+		}
+	}
 }
